@@ -235,3 +235,58 @@ func H_FaultyStore() {
 		verif.Assert(state.IsConflictError(cerr), "after restart a persisted id cannot be created again")
 	}
 }
+
+// H_FirstAccessAfterRestart: whatever the first call on a reopened state is - Get, List, a
+// single-resource Watch, a kind watch with bootstrap, Create of a persisted id, Update - it sees the
+// persisted contents (the lazy load is triggered by every entry point).
+func H_FirstAccessAfterRestart() {
+	ctx, cancel := context.WithCancel(context.Background())
+	defer cancel()
+	store := &fstore{loadFailAt: -1}
+	first := state.WrapCore(inmem.NewStateWithOptions(inmem.WithBackingStore(store))(tres.NS))
+	verif.Assert(first.Create(ctx, tres.NewA(tres.NS, "a", "persisted")) == nil, "written before the restart")
+	r0, err := first.Get(ctx, resource.NewMetadata(tres.NS, tres.TypeA, "a", resource.VersionUndefined))
+	verif.Assert(err == nil, "read back")
+	r0.(*tres.A).TypedSpec().N = 7
+	verif.Assert(first.Update(ctx, r0) == nil, "updated before the restart") // version 2
+	st := state.WrapCore(inmem.NewStateWithOptions(inmem.WithBackingStore(store))(tres.NS))
+	p := resource.NewMetadata(tres.NS, tres.TypeA, "a", resource.VersionUndefined)
+	switch verif.Choose("firstAccess", 6) {
+	case 0:
+		verif.Case("Get")
+		r, gerr := st.Get(ctx, p)
+		verif.Assert(gerr == nil && r.Metadata().Version().Value() == 2 && tres.SpecOf(r).N == 7, "Get after restart returns the persisted value")
+	case 1:
+		verif.Case("List")
+		l, lerr := st.List(ctx, kind())
+		verif.Assert(lerr == nil && len(l.Items) == 1 && l.Items[0].Metadata().Version().Value() == 2, "List after restart returns the persisted contents")
+	case 2:
+		verif.Case("Watch")
+		ch := make(chan state.Event, 4)
+		verif.Assert(st.Watch(ctx, p, ch) == nil, "watch established")
+		verif.Quiesce()
+		verif.Assert(len(ch) == 1, "the watch starts with the current state")
+		ev := <-ch
+		verif.Assert(ev.Type == state.Created && ev.Resource.Metadata().Version().Value() == 2, "a watch that is the first access after restart starts with the persisted value")
+	case 3:
+		verif.Case("WatchKind")
+		ch := make(chan state.Event, 4)
+		verif.Assert(st.WatchKind(ctx, kind(), ch, state.WithBootstrapContents(true)) == nil, "watch established")
+		verif.Quiesce()
+		verif.Assert(len(ch) == 2, "bootstrap delivers the persisted resource and the end marker")
+		ev := <-ch
+		verif.Assert(ev.Type == state.Created && ev.Resource.Metadata().Version().Value() == 2, "a kind watch that is the first access after restart bootstraps the persisted contents")
+	case 4:
+		verif.Case("Create")
+		cerr := st.Create(ctx, tres.NewA(tres.NS, "a", "again"))
+		verif.Assert(state.IsConflictError(cerr), "a persisted id cannot be created again by the first call after restart")
+	case 5:
+		verif.Case("Update")
+		fresh := tres.NewA(tres.NS, "a", "u")
+		fresh.Metadata().SetVersion(r0.Metadata().Version())
+		verif.Assert(st.Update(ctx, fresh) == nil, "an update with the persisted version is the first call after restart and succeeds")
+		r, _ := st.Get(ctx, p)
+		verif.Assert(r != nil && r.Metadata().Version().Value() == 3, "and continues the version sequence")
+	}
+	verif.Cover("first access checked")
+}
